@@ -1482,7 +1482,7 @@ impl<'a, 'b> Gen<'a, 'b> {
             };
         }
         let dd = d - 1;
-        let w: [u32; 22] = [12, 6, 6, 5, 6, 8, 4, 4, 4, 4, 3, 4, 4, 14, 2, 3, 2, 3, 2, 2, 2, 3];
+        let w: [u32; 23] = [12, 6, 6, 5, 6, 8, 4, 4, 4, 4, 3, 4, 4, 14, 2, 3, 2, 3, 2, 2, 2, 3, 1];
         match self.u.weighted(&w) {
             0 => {
                 let a = self.expr(inp, dd);
@@ -1639,6 +1639,18 @@ impl<'a, 'b> Gen<'a, 'b> {
             20 => {
                 self.op("empty");
                 E { t: "empty".into(), s: Shape::Any, one: false, err: false }
+            }
+            22 => {
+                // postfix directly on a constructed term (jq grammar: Term '[' Exp ']', Term FIELD …)
+                let a = self.expr(inp, dd);
+                self.op("postfix-term");
+                match self.u.below(5) {
+                    0 => E { t: format!("[{}][0]", a.t), s: Shape::Any, one: true, err: a.err },
+                    1 => E { t: format!("[{}][]", a.t), s: a.s, one: false, err: a.err },
+                    2 => E { t: format!("{{a: {}}}.a", paren(&a.t)), s: a.s, one: a.one, err: a.err },
+                    3 => E { t: format!("[{}][1:]", a.t), s: Shape::ArrOf(Box::new(a.s)), one: true, err: a.err },
+                    _ => e1("\"abc\"[1:]", Shape::Str),
+                }
             }
             _ => {
                 let p = self.path(inp, 3, false);
